@@ -82,9 +82,10 @@ def explore(ctx):
     for c in itertools.chain(LC.gen_cases(ctx, ctx.budget(500, 12000), mutate_p=0.45, prop='C01'),
                              LC.alias_across_types(ctx, ctx.budget(40, 800)),
                              LC.untyped_regions(ctx, ctx.budget(150, 3000)),
-                             LC.class_key_faults(ctx, ctx.budget(200, 4000))):
+                             LC.class_key_faults(ctx, ctx.budget(200, 4000)),
+                             LC.strlike_key_grid(ctx)):
         if c.doc is not None and ctx.rng.random() < 0.3 and not (
-                c.desc and c.desc[0] in ('alias-across-types', 'untyped-region', 'class-key-fault')):
+                c.desc and c.desc[0] in ('alias-across-types', 'untyped-region', 'class-key-fault', 'strlike-key-grid')):
             # tags at arbitrary nodes, keys included
             doc = c.doc
             for _ in range(ctx.rng.randint(1, 3)):
